@@ -48,6 +48,11 @@ pub struct C05Plan {
     /// failed call must put the reader back to where the CALL started, i.e. after the tag.
     #[serde(default)]
     pub tag_bytes: usize,
+    /// With a tag: the user reads tag and picture as ONE record inside a transaction
+    /// of their own, `reader.with_transaction(|r| { read tag; decode })`; a failure
+    /// must leave the reader in front of the tag (the user's checkpoint stays valid).
+    #[serde(default)]
+    pub outer_txn: bool,
 }
 
 fn build(opts: u8, prefix: &[PlanPic]) -> Result<Slot, String> {
@@ -87,7 +92,10 @@ fn prep(plan: &C05Plan) -> Result<Slot, String> {
     } else {
         let mut s = build_chunked(plan.opts, &plan.prefix, plan.max_chunk)?;
         s.new_reader();
-        if plan.tag_bytes > 0 {
+        if plan.tag_bytes > 0 && plan.outer_txn {
+            let tag: Vec<u8> = (0..plan.tag_bytes).map(|i| 0xA0 | (i as u8 & 0x0F)).collect();
+            s.feed(&tag);
+        } else if plan.tag_bytes > 0 {
             let tag: Vec<u8> = (0..plan.tag_bytes).map(|i| 0xA0 | (i as u8 & 0x0F)).collect();
             s.feed(&tag);
             let n = plan.tag_bytes;
@@ -101,6 +109,39 @@ fn prep(plan: &C05Plan) -> Result<Slot, String> {
             }
         }
         Ok(s)
+    }
+}
+
+/// The call under test: a plain decode call, or (outer_txn) the user's own
+/// transaction that reads the tag and then decodes.
+fn call(m: &mut Slot, plan: &C05Plan) -> Outcome {
+    let shared = plan.shared_reader && !plan.prefix.is_empty();
+    if !(plan.outer_txn && plan.tag_bytes > 0 && !shared) {
+        return m.decode();
+    }
+    {
+        let mut p = m.pipe.lock().unwrap();
+        let remaining = (p.data.len() - p.pos) as u64;
+        p.budget = p.reads + 256 + 4 * remaining + 4 * p.armed.len() as u64;
+    }
+    let n = plan.tag_bytes;
+    let r = guarded(|| {
+        let Slot { reader, state, .. } = m;
+        reader.with_transaction(|r| {
+            for _ in 0..n {
+                r.read_bits::<u8>(8)?;
+            }
+            state.decode_next_picture(r)
+        })
+    });
+    m.pipe.lock().unwrap_or_else(|e| e.into_inner()).budget = u64::MAX;
+    match r {
+        Ok(Ok(())) => Outcome::Ok,
+        Ok(Err(e)) => Outcome::Err(err_string(&e)),
+        Err(p) => {
+            m.poisoned = true;
+            Outcome::Panic(p)
+        }
     }
 }
 
@@ -224,7 +265,7 @@ pub fn exec_c05(plan: &C05Plan, st: &mut Stats) -> Option<Violation> {
         t.feed(v);
         t.reads()
     };
-    let o = t.decode();
+    let o = call(&mut t, plan);
     let reads_v = t.reads() - reads0;
     if !o.is_ok() {
         st.inc("invalid_scenario");
@@ -261,7 +302,7 @@ pub fn exec_c05(plan: &C05Plan, st: &mut Stats) -> Option<Violation> {
             loop {
                 // the 2nd read from now fails: every call gets exactly one byte further
                 m.arm(2, *kind);
-                let o = m.decode();
+                let o = call(&mut m, plan);
                 st.inc("evaluations");
                 st.add("steps", 1);
                 match &o {
@@ -315,7 +356,7 @@ pub fn exec_c05(plan: &C05Plan, st: &mut Stats) -> Option<Violation> {
             m.arm(n, SrcFault::Eintr);
             n += 2;
         }
-        let o = m.decode();
+        let o = call(&mut m, plan);
         st.inc("evaluations");
         let fired = m.pipe.lock().unwrap().fired.iter().map(|f| f.1).sum::<u64>();
         st.add("fault.src_Eintr.fired", fired);
@@ -334,7 +375,7 @@ pub fn exec_c05(plan: &C05Plan, st: &mut Stats) -> Option<Violation> {
         for k in 0..60 {
             m.arm(at + k, SrcFault::Eintr);
         }
-        let o = m.decode();
+        let o = call(&mut m, plan);
         st.inc("evaluations");
         st.add("fault.src_Eintr.fired", m.pipe.lock().unwrap().fired.iter().map(|f| f.1).sum::<u64>());
         if !matches!(o, Outcome::Panic(_)) {
@@ -356,7 +397,7 @@ pub fn exec_c05(plan: &C05Plan, st: &mut Stats) -> Option<Violation> {
             let before_obs = observe(&m, &Outcome::Ok);
             let before = state_digest(&m.state);
             m.feed(&v[..k]);
-            let o = m.decode();
+            let o = call(&mut m, plan);
             st.inc("evaluations");
             st.add("steps", 1);
             st.inc("fault.eof_for_now.fired");
@@ -385,13 +426,14 @@ pub fn exec_c05(plan: &C05Plan, st: &mut Stats) -> Option<Violation> {
                 return Some(x);
             }
             if !shared {
-                if let Err(e) = reader_where_it_was(&mut m, v) {
+                let expect: Vec<u8> = if plan.outer_txn && plan.tag_bytes > 0 { (0..plan.tag_bytes).map(|i| 0xA0 | (i as u8 & 0x0F)).chain(v.iter().copied()).collect() } else { v.clone() };
+                if let Err(e) = reader_where_it_was(&mut m, &expect) {
                     return viol("reader moved by a failed call", format!("{what}: {e}"));
                 }
             }
             // deliver the rest, retry: as if all data had been there from the start
             m.feed(&v[k..]);
-            let o2 = m.decode();
+            let o2 = call(&mut m, plan);
             st.inc("evaluations");
             if let Outcome::Panic(_) = &o2 {
                 st.inc("panic_not_judged_here");
@@ -427,7 +469,7 @@ pub fn exec_c05(plan: &C05Plan, st: &mut Stats) -> Option<Violation> {
                 st.inc("excluded_too_large");
                 continue;
             }
-            let o = m.decode();
+            let o = call(&mut m, plan);
             st.inc("evaluations");
             st.add("steps", 1);
             let what = format!("poison '{}' -> {}", p.note, o.short());
@@ -450,7 +492,8 @@ pub fn exec_c05(plan: &C05Plan, st: &mut Stats) -> Option<Violation> {
                 return Some(x);
             }
             if !shared {
-                if let Err(e) = reader_where_it_was(&mut m, &p.bytes) {
+                let expect: Vec<u8> = if plan.outer_txn && plan.tag_bytes > 0 { (0..plan.tag_bytes).map(|i| 0xA0 | (i as u8 & 0x0F)).chain(p.bytes.iter().copied()).collect() } else { p.bytes.clone() };
+                if let Err(e) = reader_where_it_was(&mut m, &expect) {
                     return viol("reader moved by a failed call", format!("{what}: {e}"));
                 }
             } else {
@@ -741,6 +784,7 @@ pub fn gen_c05(rng: &mut Rng, tier: Tier) -> C05Plan {
         shared_reader: rng.chance(1, 3),
         max_chunk: *rng.pick(&[0usize, 0, 0, 1, 2, 3, 7]),
         tag_bytes: *rng.pick(&[0usize, 0, 0, 1, 3, 5]),
+        outer_txn: rng.bool(),
     }
 }
 
@@ -813,6 +857,6 @@ impl Property for C05 {
         ]
     }
     fn probe_names() -> Vec<&'static str> {
-        vec!["io_error_inside_header", "io_error_inside_mb_header", "io_error_inside_block_data", "split_failed_inside_header", "split_failed_inside_block_data", "failure_on_a_reused_reader", "failure_chain_completed"]
+        vec!["io_error_inside_header", "io_error_inside_mb_header", "io_error_inside_block_data", "split_failed_inside_header", "split_failed_inside_block_data", "failure_on_a_reused_reader", "failure_chain_completed", "eintr_burst_invisible"]
     }
 }
